@@ -7,7 +7,7 @@ use ldk_verif_harness::common::*;
 use ldk_verif_harness::sim::*;
 use std::collections::BTreeMap;
 
-fn scenario(rng: &mut Rng, steps: usize, async_persist: bool) -> (Net, Vec<String>) {
+fn scenario(rng: &mut Rng, steps: usize, async_persist: bool, with_disc: bool) -> (Net, Vec<String>) {
 	let mut viol: Vec<String> = vec![];
 	let mut at_limit: Vec<(usize, &'static str, u64)> = vec![];
 	let mut user_failed: Vec<usize> = vec![];
@@ -19,8 +19,18 @@ fn scenario(rng: &mut Rng, steps: usize, async_persist: bool) -> (Net, Vec<Strin
 	net.sample_balances(c);
 	if async_persist { for i in 0..2 { if rng.chance(1, 2) { net.set_mode(i, true); } } }
 	for _ in 0..steps {
+		let linked = net.connected.contains(&(0, 1));
+		// sends are only meaningful once both sides consider the channel usable again (reestablish exchanged)
+		let connected = linked && (0..2).all(|i| net.nodes[i].node.list_channels().get(0).map(|c| c.is_usable).unwrap_or(false));
+		// targeted: reconnect while a monitor update is still in flight (retransmission must stay gated)
+		if with_disc && linked && rng.chance(1, 5) && (0..2).any(|i| !net.pending_updates(i, c).is_empty()) {
+			net.disconnect(0, 1); net.reconnect(0, 1);
+			for _ in 0..6 { if let Some((i, j)) = net.any_queued() { net.deliver(i, j); } }
+			net.sample_balances(c); continue;
+		}
+		if with_disc && rng.chance(1, 14) { if linked { net.disconnect(0, 1); } else { net.reconnect(0, 1); } net.sample_balances(c); continue; }
 		match rng.below(16) {
-			0 | 1 | 2 => {
+			0 | 1 | 2 if connected => {
 				let (a, b) = if rng.chance(1, 2) { (0, 1) } else { (1, 0) };
 				let lim = net.nodes[a].node.list_channels()[0].next_outbound_htlc_limit_msat;
 				let min = net.nodes[a].node.list_channels()[0].next_outbound_htlc_minimum_msat;
@@ -49,7 +59,24 @@ fn scenario(rng: &mut Rng, steps: usize, async_persist: bool) -> (Net, Vec<Strin
 					}
 				}
 			},
-			3 | 4 | 5 | 6 | 7 | 8 => { let q: Vec<(usize, usize)> = net.q.iter().filter(|(_, v)| !v.is_empty()).map(|(k, _)| *k).collect(); if !q.is_empty() { let (i, j) = *rng.pick(&q); net.deliver(i, j); } },
+			3 | 4 | 5 | 6 | 7 | 8 => { let q: Vec<(usize, usize)> = net.q.iter().filter(|(_, v)| !v.is_empty()).map(|(k, _)| *k).collect(); if !q.is_empty() {
+				let (i, j) = *rng.pick(&q);
+				let kind = net.deliver(i, j);
+				// right after an update_fulfill/fail (its commitment_signed still undelivered) or a commitment_signed, probe the
+				// reported limit of the node that just processed it: the limit must be exact in every intermediate state
+				if connected && matches!(kind, Some("fulfill") | Some("fail") | Some("cs") | Some("raa")) && rng.chance(1, 3) {
+					let lim = net.nodes[j].node.list_channels()[0].next_outbound_htlc_limit_msat;
+					let min = net.nodes[j].node.list_channels()[0].next_outbound_htlc_minimum_msat;
+					if lim >= min && lim > 0 {
+						let r = net.send(&[j, i], &[c], lim, 80);
+						net.process_events(j);
+						match r {
+							Ok(p) if !locally_failed(&net, j, Some(p)) => at_limit.push((p, "limit", lim)),
+							_ => viol.push(format!("send of {} msat exactly at the reported limit (right after processing {:?}) was refused locally", lim, kind)),
+						}
+					}
+				}
+			} },
 			9 | 10 => { let i = rng.below(2) as usize; net.forward(i); net.process_events(i); },
 			11 | 12 => {
 				// claim or fail a payment that is claimable at its recipient
@@ -62,11 +89,13 @@ fn scenario(rng: &mut Rng, steps: usize, async_persist: bool) -> (Net, Vec<Strin
 				}
 			},
 			13 => { if async_persist { let i = rng.below(2) as usize; if !net.in_progress[i] { net.set_mode(i, true); } } },
+			0 | 1 | 2 => {},
 			_ => { let i = rng.below(2) as usize; let p = net.pending_updates(i, c); if !p.is_empty() { let id = *rng.pick(&p); net.complete(i, c, id); } },
 		}
 		net.sample_balances(c);
 	}
-	// drain: complete everything, deliver everything
+	// drain: reconnect, complete everything, deliver everything
+	if !net.connected.contains(&(0, 1)) { net.reconnect(0, 1); }
 	for i in 0..2 { net.set_mode(i, false); }
 	for _ in 0..40 {
 		for i in 0..2 { for id in net.pending_updates(i, c) { net.complete(i, c, id); } }
@@ -105,8 +134,9 @@ fn main() {
 	for sc in 0..n_scen {
 		let steps = if args.thorough { 60 + rng.below(200) as usize } else { 40 + rng.below(80) as usize };
 		let async_persist = sc % 2 == 1;
+		let with_disc = sc % 3 == 2 || sc % 4 == 1;
 		let mut sub = Rng::new(rng.next());
-		let net = match guarded(std::panic::AssertUnwindSafe(|| scenario(&mut sub, steps, async_persist))) {
+		let net = match guarded(std::panic::AssertUnwindSafe(|| scenario(&mut sub, steps, async_persist, with_disc))) {
 			Ok((n, viol)) => { for v in viol { rec.oracle_fail(format!("scenario {}: {}", sc, v)); } n },
 			Err(p) => { rec.oracle_fail(format!("scenario {} (seed {}, async={}) panicked: {}", sc, args.seed, async_persist, p.chars().take(200).collect::<String>())); continue; },
 		};
@@ -151,6 +181,9 @@ fn main() {
 					_ => {},
 				}
 			}
+		} else if with_disc {
+			// the two-party protocol monitor does not model reestablish/retransmission yet: oracles + mongate only
+			rec.discarded += 1;
 		} else {
 			let first: Vec<u64> = net.trace.iter().filter_map(|o| if let Obs::Balance { node, value_to_self_msat, .. } = o { Some((*node, *value_to_self_msat)) } else { None }).take(2).map(|x| x.1).collect();
 			if first.len() < 2 { rec.discarded += 1; continue; }
